@@ -214,7 +214,9 @@ pub fn gen_project(d: &Data, r: &mut Rng, bad: Option<&str>) -> Project {
     r.shuffle(&mut names);
     // rule files
     let nfiles = r.range(1, 3);
-    let stems = ["global", "rules/early", "late", "rules/shared-1"];
+    // stems that differ only by their directory are different files
+    let mut stems = vec!["global", "rules/early", "late", "rules/shared-1", "early", "rules/late"];
+    r.shuffle(&mut stems);
     let mut rule_files = BTreeMap::new();
     let mut stem_list: Vec<String> = Vec::new();
     for i in 0..nfiles {
@@ -440,7 +442,21 @@ pub fn gen_scn(d: &Data, r: &mut Rng, faulty: bool, bad: Option<&str>) -> Scn {
         } else {
             let stems: Vec<String> = project.word_files.keys().cloned().collect();
             let stem = r.pick(&stems).clone();
-            let words = c19gen::gen_words(d, r);
+            let words = match r.below(3) {
+                0 => c19gen::gen_words(d, r),
+                1 => {
+                    let mut w = project.word_files[&stem].clone();
+                    w.push(c19gen::safe_word(d, r));
+                    w
+                }
+                _ => {
+                    let mut w = project.word_files[&stem].clone();
+                    if w.len() > 1 {
+                        w.pop();
+                    }
+                    w
+                }
+            };
             Cmd::Edit { path: crate::cli::resolve(PROJ, &format!("{stem}.wsca")), text: c19gen::render_wsca(&words, &fmt, r), rules: None, words: Some((stem, words)) }
         };
         invs.insert(at, Inv { cmd, cwd: PROJ.to_string(), answer: "y".into(), detrand: 1, dirseed: 0, class: FaultClass::None, plan: vec![], fault_seed: 0, recover: false });
